@@ -42,6 +42,13 @@ CHECKS = {
         "trusted: nothing beyond DuckDB evaluating literals; not demanded: UNSET of an undefined variable, multi-assignment SET, positional $1",
         "explicit-state model checking (BFS over variable-map states, depth-bounded; fixpoint not reached) against a dict-per-connection reference model",
     ),
+    "C13": (
+        "E1-bfs",
+        "model_checking",
+        "explicit-state BFS over all statement-level interleavings of transactional operations on two connections (three cursors), deduplicated on the model state (committed store, pending working copies, acceptable snapshot versions); after every transition every cursor reads every table and is compared with the model's view for its connection",
+        "trusted: DuckDB MVCC for visibility; writes of the two connections never conflict by construction; not demanded: nested BEGIN, START TRANSACTION, which committed version a reader inside its own transaction sees",
+        "explicit-state model checking (depth-bounded BFS over interleavings) against a committed-store + pending-set reference model",
+    ),
 }
 
 NOT_BUILT = "check not built yet in this round (planned per DESIGN.md §3); no claim is made"
